@@ -124,6 +124,19 @@ def samestep_roles(roles):
     return leaves, universe
 
 
+def reftwin_roles(roles):
+    """references that differ ONLY in letter case (reference names are matched exactly), next to a listed id and its case variant
+    (listed ids are not): a key that folds case confuses the first pair and must not confuse the second"""
+    r = roles.rng
+    name = r.choice(["Acme", "Foo.bar", "x-Y", "Abc"])
+    doc = r.choice(["Doc", "Spdx-Tool"])
+    p1 = r.choice([x for x in roles.unranged if x.lower() != x])
+    leaves = ["LicenseRef-" + name, "LicenseRef-" + name.lower(), "DocumentRef-" + doc + ":LicenseRef-" + name, p1.lower()]
+    universe = ["LicenseRef-" + name, "LicenseRef-" + name.lower(), "DocumentRef-" + doc.lower() + ":LicenseRef-" + name,
+                "DocumentRef-" + doc + ":LicenseRef-" + name, p1]
+    return leaves, universe
+
+
 FIXED_SELECTIONS = [["fam", "ref", "plain", "famplus"], ["orlater", "docref", "withexc", "only"], ["famplus", "ref", "only", "withexc"]]
 
 
@@ -135,6 +148,9 @@ def run_tree(ctx, name, rng, leaves, selection=None):
     elif selection == "samestep":
         texts, universe = samestep_roles(roles)
         sel = "two ids of one version step, case variant of a listed -or-later id"
+    elif selection == "reftwins":
+        texts, universe = reftwin_roles(roles)
+        sel = "references differing only in letter case, a listed id in lower case"
     else:
         texts, universe, sel = roles.tree_roles(selection)
     ctx.write_params("MC_Tree_P", {"MaxLeaves": str(leaves), "LeafTexts": tla_seq(texts), "Universe": tla_seq(universe)})
@@ -158,10 +174,12 @@ def tree_family(ctx, relevant, flavor, rule):
         ctx.drive("trace", flavor, 1500, leaves=12)
         run_tree(ctx, "tree4-sameid", rng, 4, "sameid")
         run_tree(ctx, "tree4-samestep", rng, 4, "samestep")
+        run_tree(ctx, "tree4-reftwins", rng, 4, "reftwins")
     else:
         run_tree(ctx, "tree4", rng, 4)
         run_tree(ctx, "tree3-sameid", rng, 3, "sameid")
         run_tree(ctx, "tree3-samestep", rng, 3, "samestep")
+        run_tree(ctx, "tree3-reftwins", rng, 3, "reftwins")
         ctx.drive("trace", flavor, 300, leaves=10)
     ctx.validate_trace("trace")
     if ctx.model_violation and not [m for m in ctx.mismatches if m["what"] in relevant]:
@@ -254,6 +272,7 @@ def c10(ctx):
     texts, universe, sel = roles.tree_roles()
     stexts, suniverse = sameid_roles(roles)
     ttexts, tuniverse = samestep_roles(roles)
+    rtexts, runiverse = reftwin_roles(roles)
     # (measured: ~200 states/s with replay; one rewrite from every tree <= 3 leaves over 3 labels = 10 k states, over 4 labels = 15 k;
     #  two rewrites from every tree <= 2 leaves over 4 labels = 45 k)
     if thorough:
@@ -261,11 +280,13 @@ def c10(ctx):
                 ("rewrite-2steps", texts, universe[:4], "2", "2", sel),
                 ("rewrite-sameid", stexts, suniverse, "3", "1", "same id, different '+' / exception"),
                 ("rewrite-samestep", ttexts, tuniverse, "3", "1", "two ids of one step, case variant"),
+                ("rewrite-reftwins", rtexts, runiverse, "3", "1", "references differing only in letter case"),
                 ("rewrite-sameid-2steps", stexts, suniverse[:4], "2", "2", "same id, different '+' / exception")]
     else:
         runs = [("rewrite", texts[:3], universe[:4], "3", "1", sel),
                 ("rewrite-sameid", stexts[:3], suniverse[:4], "2", "1", "same id, different '+' / exception"),
-                ("rewrite-samestep", ttexts[:3], tuniverse[:4], "2", "1", "two ids of one step, case variant")]
+                ("rewrite-samestep", ttexts[:3], tuniverse[:4], "2", "1", "two ids of one step, case variant"),
+                ("rewrite-reftwins", rtexts[:3], runiverse[:4], "2", "1", "references differing only in letter case")]
     for name, tx, uni, start, steps, what in runs:
         ctx.write_params("MC_Tree_P", {"MaxLeaves": "3", "LeafTexts": tla_seq(tx), "Universe": tla_seq(uni)})
         ctx.write_params("MC_Rewrite_P", {"StartLeaves": start, "MaxSteps": steps, "MaxSize": "8" if thorough else "7"})
@@ -277,6 +298,7 @@ def c10(ctx):
     run_tree(ctx, "tree", rng, 3 if not thorough else 4)   # (5 leaves = 20 min; C01 and C06 run that)
     run_tree(ctx, "tree-sameid", rng, 3 if not thorough else 4, "sameid")
     run_tree(ctx, "tree-samestep", rng, 3 if not thorough else 4, "samestep")
+    run_tree(ctx, "tree-reftwins", rng, 3 if not thorough else 4, "reftwins")
     ctx.drive("trace", "sat", 1200 if thorough else 300, leaves=10)
     ctx.validate_trace("trace")
     sessions(ctx)
